@@ -72,9 +72,9 @@ by have -> : forall l, foldl (fun s k => felim (c02_ElimPivot F) (f k) k i s) s 
 Qed.
 
 Lemma lu_Pivot_inv A piv : wfm A ->
-  loop_post absr Rpre_P (mx A) piv 0 (c02_lu ops (c02_ElimPivot F) n piv A (iota 0 n)).
+  loop_post absr Rpre_P Rpost_P piv (mx A) 0 (c02_lu ops (c02_ElimPivot F) n piv A (iota 0 n)).
 Proof.
-move=> wA; apply: (lu_loop_inv absr0 RP_swap RP_skip RP_elim) => //.
+move=> wA; apply: (lu_loop_inv absr0 (fun _ => RP_swap) RP_skip RP_elim) => //.
 apply: (inv0 absr) => //; split=> //; first by rewrite size_iota.
 - by move=> k Hk; rewrite nth_iota // add0n; lia.
 - by move=> k Hk; rewrite nth_iota // add0n.
